@@ -19,7 +19,7 @@ fn build(src: [Frame; 3], settings: StaticSoundSettings, slice: Option<(usize, u
     data.split()
 }
 
-// @ob id=C04.8a,C03.4a strength=bounded tier=quick bound="3 symbolic stereo frames (|x| <= 1), sound rate = device rate (sample_rate 1, dt 1), 5 one-frame callbacks" fn=sound/static_sound/sound.rs::StaticSound::{new,process,update_position,push_frame_to_resampler}
+// @ob id=C04.8a,C03.4a strength=bounded tier=quick timeout=1800 bound="3 symbolic stereo frames (|x| <= 1), sound rate = device rate (sample_rate 1, dt 1), 5 one-frame callbacks" fn=sound/static_sound/sound.rs::StaticSound::{new,process,update_position,push_frame_to_resampler}
 // @req default settings (rate 1, 0 dB, centre, no loop, forward, start 0)
 // @ens the first output frame is source frame 0 (no added latency) and frames 0,1,2 are reproduced bit-exactly in order; then exact silence; the sound reports Stopped (finished) right after the drained tail and not before the last source frame was emitted; the handle sees Stopped
 #[kani::proof]
@@ -62,21 +62,21 @@ fn run_select(mode: u8) {
     core::mem::forget(info); core::mem::forget(s); core::mem::forget(h);
 }
 
-// @ob id=C04.8b strength=bounded tier=quick bound="3 symbolic frames, sample_rate 1, dt 1, 4 callbacks" fn=sound/static_sound/sound.rs::StaticSound::{new,process,update_position,is_playing_backwards}
+// @ob id=C04.8b strength=bounded tier=quick timeout=1800 bound="3 symbolic frames, sample_rate 1, dt 1, 4 callbacks" fn=sound/static_sound/sound.rs::StaticSound::{new,process,update_position,is_playing_backwards}
 // @req reverse playback from the start (start position 0)
 // @ens frames 2,1,0 bit-exactly then silence
 #[kani::proof]
 #[kani::unwind(8)]
 fn c04_8b_reverse() { run_select(0) }
 
-// @ob id=C04.8d strength=bounded tier=quick bound="3 symbolic frames, sample_rate 1, dt 1, 4 callbacks" fn=sound/static_sound/sound.rs::StaticSound::{new,process,update_position}
+// @ob id=C04.8d strength=bounded tier=quick timeout=1800 bound="3 symbolic frames, sample_rate 1, dt 1, 4 callbacks" fn=sound/static_sound/sound.rs::StaticSound::{new,process,update_position}
 // @req forward playback from start position 1 (in samples)
 // @ens frames 1,2 bit-exactly then silence (begins at the requested start position)
 #[kani::proof]
 #[kani::unwind(8)]
 fn c04_8d_start_position() { run_select(1) }
 
-// @ob id=C04.8e,C01.3x strength=bounded tier=quick bound="3 symbolic frames, sample_rate 1, dt 1, 4 callbacks" fn=sound/static_sound/sound.rs::StaticSound::{new,process,push_frame_to_resampler}
+// @ob id=C04.8e,C01.3x strength=bounded tier=quick timeout=1800 bound="3 symbolic frames, sample_rate 1, dt 1, 4 callbacks" fn=sound/static_sound/sound.rs::StaticSound::{new,process,push_frame_to_resampler}
 // @req slice (1,3)
 // @ens frames 1,2 then silence: frame 0 is never emitted (nothing outside the slice is read)
 #[kani::proof]
@@ -100,14 +100,14 @@ fn run_loop(ls: usize, le: usize, idx: [usize; 6]) {
     core::mem::forget(info); core::mem::forget(s); core::mem::forget(h);
 }
 
-// @ob id=C04.8c strength=bounded tier=quick bound="3 symbolic frames, sample_rate 1, dt 1, 6 callbacks; loop region (0,2) in samples" fn=sound/static_sound/sound.rs::StaticSound::{new,process,update_position}
+// @ob id=C04.8c strength=bounded tier=quick timeout=1800 bound="3 symbolic frames, sample_rate 1, dt 1, 6 callbacks; loop region (0,2) in samples" fn=sound/static_sound/sound.rs::StaticSound::{new,process,update_position}
 // @req forward playback with loop region [0,2)
 // @ens output 0,1,0,1,0,1: wraps from the loop end straight to the loop start; never stops
 #[kani::proof]
 #[kani::unwind(9)]
 fn c04_8c_loop_0_2() { run_loop(0, 2, [0, 1, 0, 1, 0, 1]) }
 
-// @ob id=C04.8f strength=bounded tier=quick bound="as C04.8c; loop region (1,3): loop end == length" fn=sound/static_sound/sound.rs::StaticSound::{new,process,update_position}
+// @ob id=C04.8f strength=bounded tier=quick timeout=1800 bound="as C04.8c; loop region (1,3): loop end == length" fn=sound/static_sound/sound.rs::StaticSound::{new,process,update_position}
 // @req forward playback with loop region [1,3) (loop end == sound length)
 // @ens output 0,1,2,1,2,1
 #[kani::proof]
@@ -144,28 +144,28 @@ fn run_frozen(mode: u8) {
     core::mem::forget(info); core::mem::forget(s); core::mem::forget(h);
 }
 
-// @ob id=C03.4b strength=bounded tier=quick bound="3 symbolic frames; 2-frame output buffer" fn=sound/static_sound/sound.rs::<StaticSound as Sound>::process
+// @ob id=C03.4b strength=bounded tier=quick timeout=1800 bound="3 symbolic frames; 2-frame output buffer" fn=sound/static_sound/sound.rs::<StaticSound as Sound>::process
 // @req a sound whose start time is still pending (Delayed 10 s)
 // @ens output exactly Frame::ZERO; transport position, fractional position and resampler window unchanged
 #[kani::proof]
 #[kani::unwind(8)]
 fn c03_4b_pending_start_time() { run_frozen(0) }
 
-// @ob id=C03.4c,C12.5a strength=bounded tier=quick bound="3 symbolic frames; 2-frame output buffer; zero-length fade" fn=sound/static_sound/sound.rs::<StaticSound as Sound>::{process,on_start_processing}
+// @ob id=C03.4c,C12.5a strength=bounded tier=quick timeout=1800 bound="3 symbolic frames; 2-frame output buffer; zero-length fade" fn=sound/static_sound/sound.rs::<StaticSound as Sound>::{process,on_start_processing}
 // @req a sound paused through the real pause path (zero-length fade)
 // @ens Paused after one update; then exact silence and a frozen position; the handle reports Paused
 #[kani::proof]
 #[kani::unwind(8)]
 fn c03_4c_paused() { run_frozen(1) }
 
-// @ob id=C03.4d strength=bounded tier=quick bound="as C03.4c" fn=sound/static_sound/sound.rs::<StaticSound as Sound>::process
+// @ob id=C03.4d strength=bounded tier=quick timeout=1800 bound="as C03.4c" fn=sound/static_sound/sound.rs::<StaticSound as Sound>::process
 // @req paused, then resume_at(Delayed 10 s)
 // @ens WaitingToResume: exact silence, frozen position
 #[kani::proof]
 #[kani::unwind(8)]
 fn c03_4d_waiting_to_resume() { run_frozen(2) }
 
-// @ob id=C03.4e strength=bounded tier=quick bound="as C03.4c" fn=sound/static_sound/sound.rs::<StaticSound as Sound>::process
+// @ob id=C03.4e strength=bounded tier=quick timeout=1800 bound="as C03.4c" fn=sound/static_sound/sound.rs::<StaticSound as Sound>::process
 // @req stopped through the real stop path (zero-length fade)
 // @ens Stopped after one update: finished, exact silence, frozen position; the handle reports Stopped
 #[kani::proof]
@@ -248,7 +248,7 @@ fn c04_8g_volume_and_panning_applied() {
     core::mem::forget(info); core::mem::forget(s); core::mem::forget(h);
 }
 
-// @ob id=C03.3a strength=complete tier=quick fn=sound/static_sound/sound.rs::Shared::{set_state,state}
+// @ob id=C03.3a strength=complete tier=quick timeout=1800 fn=sound/static_sound/sound.rs::Shared::{set_state,state}
 // @req every one of the seven playback states
 // @ens state(set_state(s)) == s and never panics (the handle reports exactly what the sound stored)
 #[kani::proof]
